@@ -47,7 +47,7 @@ def table(job):
             os.makedirs(d)
             for n in ("str", "len", "list", "range", "sorted", "dict", "set", "print", "filter", "format", "type", "input",
                       # ... or with a name the programs only use for a lambda / nested-def parameter, an 'except ... as' target, a loop variable
-                      "row", "err", "q", "_k",
+                      "row", "err", "q", "_k", "kindcap", "firstcap", "restcap", "otherscap",
                       # ... or a name bound by an import statement / a def inside the function body
                       "h1", "_inner0", "_inner1",
                       # ... or the parameter of a method
